@@ -115,10 +115,18 @@ func (s *ftpService) SetChannel(c pushers.Channel) {
 
 func (s *ftpService) Handle(ctx context.Context, conn net.Conn) error {
 
-	ftpConn := s.server.newConn(conn, s.driver, s.recv)
+	// one command-log channel per connection: its pump ends with the session
+	// and only ever reports this session's commands
+	recv := make(chan string)
+
+	ftpConn := s.server.newConn(conn, s.driver, recv)
+
+	done := make(chan struct{})
 
 	go func() {
-		for msg := range s.recv {
+		defer close(done)
+
+		for msg := range recv {
 			s.c.Send(event.New(
 				services.EventOptions,
 				event.Category("ftp"),
@@ -131,6 +139,9 @@ func (s *ftpService) Handle(ctx context.Context, conn net.Conn) error {
 	}()
 
 	ftpConn.Serve()
+
+	close(recv)
+	<-done
 
 	return nil
 }
